@@ -61,6 +61,12 @@ Inductive eop :=
 
 Section Deltas.
   Variables (d1 d2 : Z).  (* CleanupDelta, TotalCleanupDelta *)
+  (** Capacity of the platform for a node's epoch list (std.Serialize item
+      limit, storage value limit, live-item limit of the VM stack while the
+      old and the new list coexist).  The theorems hold for EVERY capacity
+      predicate; the correspondence check instantiates it with the
+      serialization bound [ser_ints_ok], which no recorded history reaches. *)
+  Variable cap : list Z -> bool.
 
   (** The loop of [updateEstimations] (isUpdate = false) over the node's old
       epoch list: [epoch-oldEpoch > CleanupDelta] deletes the old key. *)
@@ -80,7 +86,7 @@ Section Deltas.
     '(st, keep) <-! upd_loop e cid h20 old (ests s);
     let new := keep ++ [e] in
     (* common.SetSerialized: std.Serialize, then storage.Put("est"++cid++h, …) *)
-    _ <-! oassert ((3 + length est_key <=? 64)%nat && ser_ints_ok new);
+    _ <-! oassert ((3 + length est_key <=? 64)%nat && cap new);
     Halt (mkE st (<[est_key := new]> (elists s))).
 
   (** [PutContainerSize] *)
@@ -144,12 +150,14 @@ Definition elist (st : store) (e : Z) : outcome (list bytes) :=
 (** [GetContainerSize] -> (cid, values) *)
 Definition eget (st : store) (id : bytes) : outcome (bytes * list bytes) :=
   _ <-! oassert ((3 + cid_size <=? length id)%nat && bytes_eqb (take 3 id) cnr_pfx);
-  Halt (drop (length id - cid_size) id, map snd (sfind id st)).
+  vals <-! with_key id (map snd (sfind id st));   (* a scan prefix > 64 bytes faults *)
+  Halt (drop (length id - cid_size) id, vals).
 
 (** [IterateContainerSizes] *)
 Definition eiter (st : store) (e : Z) (cid : bytes) : outcome (list bytes) :=
   _ <-! oassert (length cid =? cid_size)%nat;
-  Halt (map snd (sfind (cnr_pfx ++ int_to_bytes e ++ cid) st)).
+  with_key (cnr_pfx ++ int_to_bytes e ++ cid)     (* a scan prefix > 64 bytes faults *)
+           (map snd (sfind (cnr_pfx ++ int_to_bytes e ++ cid) st)).
 
 (** [IterateAllContainerSizes]: (key without the Find prefix, value). *)
 Definition eiter_all (st : store) (e : Z) : list (bytes * bytes) :=
@@ -179,7 +187,7 @@ Definition eobserve (q : list Z * list bytes) (s : estate) (r : val) : val :=
           end ].
 
 Definition estep_obs (d : Z * Z) (q : list Z * list bytes) (s : estate) (o : eop) : estate * val :=
-  let '(s', r) := estep (fst d) (snd d) s o in (s', eobserve q s' r).
+  let '(s', r) := estep (fst d) (snd d) ser_ints_ok s o in (s', eobserve q s' r).
 
 (** case = ((CleanupDelta, TotalCleanupDelta) read by the harness from
     containerconst, (epochs, cids), trace) *)
